@@ -21,6 +21,13 @@ type System interface {
 	Key() string
 }
 
+// Finalizer is implemented by systems whose observations must not be interleaved
+// with the operations of a history (reading a lazily-copying object changes it):
+// Apply only acts, Final observes once, after the last operation of the history.
+type Finalizer interface {
+	Final() (fails []Violation, fatal bool)
+}
+
 // BFS is Engine B: explicit-state breadth-first search over histories.
 type BFS struct {
 	Name     string
@@ -75,8 +82,14 @@ func (b *BFS) replay(hist []int) (res bfsRes) {
 			return
 		}
 	}
+	// the state key is taken before the final observation: reading may change the object
 	if !res.fatal {
 		res.key = Hash(sys.Key())
+	}
+	if f, ok := sys.(Finalizer); ok && len(hist) > 0 {
+		fails, fatal := f.Final()
+		res.fails = append(res.fails, fails...)
+		res.fatal = res.fatal || fatal
 	}
 	return
 }
@@ -231,6 +244,10 @@ func (b *BFS) ReplayHistory(hist []int) ([]Violation, string) {
 		if fatal {
 			break
 		}
+	}
+	if f, ok := sys.(Finalizer); ok && len(hist) > 0 {
+		fails, _ := f.Final()
+		all = append(all, fails...)
 	}
 	return all, ""
 }
